@@ -547,7 +547,9 @@ func sshSanitizeFilePath(sandboxDir, filePath string) (string, error) {
 	if cleaned == cleanedSandbox {
 		return "", fmt.Errorf("path %q resolves to the sandbox directory itself %q", filePath, sandboxDir)
 	}
-	if !strings.HasPrefix(cleaned, cleanedSandbox+string(filepath.Separator)) {
+	// A plain prefix test can not tell ../x (inside a sandbox of ..) from ../../x (outside of it)
+	rel, err := filepath.Rel(cleanedSandbox, cleaned)
+	if err != nil || rel == ".." || strings.HasPrefix(rel, ".."+string(filepath.Separator)) {
 		return "", fmt.Errorf("path %q is outside the sandbox directory %q", filePath, sandboxDir)
 	}
 
